@@ -983,12 +983,15 @@ example : singleKind '@' = some .at ∧ singleKind '{' = some .openBrace ∧ sin
 
 /-! ### sections and `>>` metadata through the analysis pass (audit: closes the gap named in `C01_recipe_steps`) -/
 
-/-- Analysis layer for whole documents.  `blocks` is what the parser hands over for a recipe text made of
-    steps (`SBlock.step`: simple items as in `C01_analysis_simple`, non-empty), section lines
-    (`SBlock.sect`, named or not) and `>>` metadata entries (`SBlock.entry`) that are plain
-    (`EntryPlain`: not a `[mode]` switch under MODES, not a standard key whose value `check_std_entry`
-    rejects, not `time` / `prep time` / `cook time`).  With ADVANCED_UNITS and INLINE_QUANTITIES off,
-    `parse_events` returns a recipe with
+/-- Analysis layer for whole documents, for EVERY extension set.  `blocks` is what the parser hands over for a
+    recipe text made of steps (`SBlock.step`: non-empty; plain definitions as in `C01_analysis_simple`;
+    additionally, `SItem.SimpleX`: when INLINE_QUANTITIES is on a text item contains no inline quantity
+    (`find_inline_quantity` finds nothing, e.g. because it has no digit: `C01_text_without_digit`), when
+    ADVANCED_UNITS is on a timer amount is numeric and its unit is a unit of time — both vacuous when the
+    extensions are off), section lines (`SBlock.sect`, named or not) and `>>` metadata entries
+    (`SBlock.entry`) that are plain (`EntryPlain`: not a `[mode]` switch under MODES, not a standard key
+    whose value `check_std_entry` rejects, not `time` / `prep time` / `cook time`).  Then `parse_events`
+    returns a recipe with
     * the sections `docSecs`: the blocks before the first section line form the unnamed first section
       (absent when it has no step), every section line opens a section with the trimmed name of the
       line; the steps of EACH section are numbered 1, 2, …; the index of a component item is the number
@@ -1000,7 +1003,6 @@ example : singleKind '@' = some .at ∧ singleKind '{' = some .openBrace ∧ sin
     * exactly ONE diagnostic when there is a `>>` entry — the deprecation warning carrying the span of
       every entry, in order — and none otherwise; no panic. -/
 theorem C01_analysis_doc {α : Type} [Arith α] (env : Env) (input : Str)
-    (hadv : env.ext.has Gen.EXT_ADVANCED_UNITS = false) (hinl : env.ext.has Gen.EXT_INLINE_QUANTITIES = false)
     (blocks : List (SBlock α)) (hok : ∀ b ∈ blocks, b.OK env) :
     ∃ c : Col α, parseEvents env input (blocks.flatMap SBlock.events) = ⟨some c, c.diags, none⟩ ∧
       c.sections = docSecs env [] ⟨none, []⟩ 1 blocks ∧
@@ -1010,7 +1012,13 @@ theorem C01_analysis_doc {α : Type} [Arith α] (env : Env) (input : Str)
       c.metaMap = docMeta env [] (docEntries blocks) ∧
       c.diags = deprecation (docSpans (docEntries blocks)) ∧
       c.inlineQ = #[] ∧ c.frontMatter = none :=
-  rts_parseEvents_doc env input hadv hinl blocks hok
+  rts_parseEvents_doc env input blocks hok
+
+/-- closed form of the INLINE_QUANTITIES side condition: a text without ASCII digit contains no inline
+    quantity (`find_inline_quantity` starts at a digit) -/
+theorem C01_text_without_digit {α : Type} [Arith α] (env : Env) (fuel : Nat) (pre txt : Str)
+    (h : txt.all (fun c => !isAsciiDigitC c) = true) : findInlineQuantity (α := α) env fuel pre txt = none :=
+  rts_no_digit_no_inline env fuel pre txt h
 
 /-- what a plain `>>` entry does to the collector, whatever its state: the entry goes into the map, its
     span into the list for the deprecation notice; a standard key additionally records its location and,
@@ -1022,7 +1030,11 @@ theorem C01_metadata_entry {α : Type} [Arith α] (env : Env) (input : Str) (k v
 /-- The round trip for documents made of steps, section lines and `>>` metadata lines, from the printed
     characters to the recipe (extends `C01_recipe_steps`; same hypotheses on the syntax layers:
     `DocItem.ok`, `sepsOK`, `blankLinesOK`, well-spelledness, no front-matter fence; steps made of plain
-    definitions, `DocItem.simple`; ADVANCED_UNITS and INLINE_QUANTITIES off).  Metadata lines are plain
+    definitions, `DocItem.simple`), for EVERY extension set — so for the canonical parser (no extension) and
+    for the extended parser (all extensions) of the property's quantifier: instead of requiring
+    ADVANCED_UNITS and INLINE_QUANTITIES to be off, `DocItem.extOK` asks, only when the extension is on,
+    that a text run shows no inline quantity (e.g. has no digit, `C01_text_without_digit`) and that a timer
+    amount is numeric with a unit the converter knows as a unit of time.  Metadata lines are plain
     (`DocItem.plain`: with MODES on the key is not of the form `[…]`; if the key is a standard key the
     standard check accepts the value and the key is not one of the three time keys).  Then
     `CooklangParser::parse` returns a recipe, no panic, and
@@ -1038,9 +1050,9 @@ theorem C01_metadata_entry {α : Type} [Arith α] (env : Env) (input : Str) (k v
     Outside (tested only): front matter as the metadata carrier, the three time keys, mode switches,
     references and intermediate references. -/
 theorem C01_recipe_doc {α : Type} [Arith α] (env : Env) (pre : List Tok) (doc : List (DocItem × List Tok))
-    (hadv : env.ext.has Gen.EXT_ADVANCED_UNITS = false) (hinl : env.ext.has Gen.EXT_INLINE_QUANTITIES = false)
     (hpre : blankLinesOK pre = true) (hok : ∀ d ∈ doc, d.1.ok env.cs env.ext = true)
     (hsimple : ∀ d ∈ doc, d.1.simple = true) (hplain : ∀ d ∈ doc, d.1.plain env)
+    (hext : ∀ d ∈ doc, d.1.extOK α env)
     (hseps : sepsOK (doc.map (·.2)) = true) (hw : WellSpelled env.cs (pre ++ docSpec doc))
     (hfm : parseFrontmatter env.cs (render (pre ++ docSpec doc)) = none) :
     ∃ (c : Col α) (spans : List Span),
@@ -1052,7 +1064,7 @@ theorem C01_recipe_doc {α : Type} [Arith α] (env : Env) (pre : List Tok) (doc 
       c.metaMap = absDocMeta [] (doc.map (·.1)) ∧
       c.diags = deprecation spans ∧ spans.length = ((doc.map (·.1)).filter DocItem.isMeta).length ∧
       c.inlineQ = #[] ∧ c.frontMatter = none :=
-  rtx_parseRecipe_doc env pre doc hadv hinl hpre hok hsimple hplain hseps hw hfm
+  rtx_parseRecipe_doc env pre doc hpre hok hsimple hplain hext hseps hw hfm
 
 /-! example: `>> source: grandma`, the first step of `C01_exStepsDoc`, `== Main course == `, its second
     step, `>> source : book` (the key again).  Two sections: the unnamed one with step 1, `Main course`
@@ -1066,19 +1078,51 @@ def C01_exFullDoc : List (DocItem × List Tok) :=
 
 example : (∀ d ∈ C01_exFullDoc, d.1.ok C01_stepsEnv.cs C01_stepsEnv.ext = true) ∧
     (∀ d ∈ C01_exFullDoc, d.1.simple = true) ∧ sepsOK (C01_exFullDoc.map (·.2)) = true := by decide
-example : WellSpelled toyCharSpec (docSpec C01_exFullDoc) := by decide
-example : (parseFrontmatter toyCharSpec (render (docSpec C01_exFullDoc))).isNone = true := by decide
-example : ∀ d ∈ C01_exFullDoc, d.1.plain C01_stepsEnv := by
-  have hk : StdKey.ofStr (String.ofList (leafText [tk .word "source".toList])) = some .source := by decide
-  have hp : ∀ v p, (DocItem.metaLine [tk .word "source".toList] v p).plain C01_stepsEnv := by
-    intro v p
-    refine ⟨by decide, fun sk h => ?_⟩
-    rw [hk] at h
-    cases h
-    exact ⟨by simp [C01_stepsEnv], by decide⟩
+/-- the same document under the extended parser: every extension on, a converter that knows `min` as a unit
+    of time; the text runs have no digit, the timer `~{10%min}` has a numeric amount in a time unit -/
+def C01_fullEnv : Env :=
+  ⟨toyCharSpec, ⟨C01_timerExt.bits ||| Gen.EXT_MODES ||| Gen.EXT_INLINE_QUANTITIES⟩,
+   fun u => if u = "min".toList then some 4 else none, fun _ _ => .ok, fun c => [c], 4⟩
+example : C01_fullEnv.ext.has Gen.EXT_ADVANCED_UNITS = true ∧ C01_fullEnv.ext.has Gen.EXT_INLINE_QUANTITIES = true ∧
+    C01_fullEnv.ext.has Gen.EXT_MODES = true ∧ C01_fullEnv.ext.has Gen.EXT_COMPONENT_MODIFIERS = true := by decide
+example : (∀ d ∈ C01_exFullDoc, d.1.ok C01_fullEnv.cs C01_fullEnv.ext = true) := by decide
+example : ∀ d ∈ C01_exFullDoc, d.1.extOK Rat C01_fullEnv := by
   intro d hd
   simp only [C01_exFullDoc, List.mem_cons, List.not_mem_nil, or_false] at hd
-  rcases hd with rfl | rfl | rfl | rfl | rfl <;> first | exact hp _ _ | trivial
+  rcases hd with rfl | rfl | rfl | rfl | rfl <;> try trivial
+  all_goals
+    intro sg hsg
+    simp only [C01_exStepsDoc, List.map_cons, List.map_nil, List.getElem!_cons_zero, List.getElem!_cons_succ,
+      List.mem_cons, List.not_mem_nil, or_false] at hsg
+    rcases hsg with rfl | rfl | rfl | rfl | rfl | rfl | rfl <;>
+      first
+      | trivial
+      | (intro _; exact ⟨by decide, rts_no_digit_no_inline _ _ _ _ (by decide)⟩)
+      | (intro _ q hq; cases hq; exact ⟨by decide, fun u hu => by cases hu; decide⟩)
+example : WellSpelled toyCharSpec (docSpec C01_exFullDoc) := by decide
+example : (parseFrontmatter toyCharSpec (render (docSpec C01_exFullDoc))).isNone = true := by decide
+example : ∀ d ∈ C01_exFullDoc, d.1.extOK Rat C01_stepsEnv := by
+  intro d hd
+  simp only [C01_exFullDoc, List.mem_cons, List.not_mem_nil, or_false] at hd
+  rcases hd with rfl | rfl | rfl | rfl | rfl <;> try trivial
+  all_goals
+    intro sg _
+    cases sg <;> first | trivial | (intro h; exact absurd h (by decide))
+example : (∀ d ∈ C01_exFullDoc, d.1.plain C01_stepsEnv) ∧ (∀ d ∈ C01_exFullDoc, d.1.plain C01_fullEnv) := by
+  have hk : StdKey.ofStr (String.ofList (leafText [tk .word "source".toList])) = some .source := by decide
+  have hp : ∀ (env : Env), env.stdCheck = (fun _ _ => .ok) →
+      ¬ (env.ext.has Gen.EXT_MODES = true ∧ (leafText [tk .word "source".toList]).head? = some '[' ∧
+        (leafText [tk .word "source".toList]).getLast? = some ']') →
+      ∀ v p, (DocItem.metaLine [tk .word "source".toList] v p).plain env := by
+    intro env he hn v p
+    refine ⟨hn, fun sk h => ?_⟩
+    rw [hk] at h
+    cases h
+    exact ⟨by simp [he], by decide⟩
+  constructor <;> intro d hd <;>
+    simp only [C01_exFullDoc, List.mem_cons, List.not_mem_nil, or_false] at hd <;>
+    rcases hd with rfl | rfl | rfl | rfl | rfl <;>
+    first | exact hp _ rfl (by decide) _ _ | trivial
 example : absDocSecs [] ⟨none, []⟩ 1 (C01_exFullDoc.map (·.1)) =
     [⟨none, [.step ⟨[.text "Fry ".toList, .ingredient 0, .text " with ".toList, .ingredient 1, .text " in ".toList,
                      .cookware 0, .text ".".toList], 1⟩]⟩,
